@@ -510,6 +510,7 @@ func checkC11(p *core.Program, r *core.Report) {
 	r.Rule("O11.1", "writer and reader section sequences coincide (fields, order, width, endianness)")
 	r.Rule("O11.2", "every I/O error in the writers and the reader propagates on every path")
 	r.Rule("O11.4", "the reader refuses a file only on read/decode failures (or defensive tests on their results), never on a condition over the decoded depth / batch size")
+	r.Rule("O11.7", "imported from C15 O15.6: the load chain keeps no package-level state between loads (a system remembered per path is returned after the file was regenerated)")
 	r.Rule("O11.6", "loading a keys file takes no exclusive advisory lock on it (a second reader of a valid file must not be refused)")
 	r.Rule("O11.5", "a loader that opens a file lets the decoder read the file itself or a buffer holding the whole stream, not a buffer sized before reading (Stat)")
 	r.Rule("O11.3", "CLI: persisting commands write the right system with a ProvingSystem writer to the --output file; reading commands use the loader")
@@ -665,6 +666,7 @@ func checkC11(p *core.Program, r *core.Report) {
 	checkReaderRefusals(p, r, append(append([]flow.FuncUnit{}, readers...), readerParts...))
 	checkLoaderStreams(p, r)
 	checkLoaderLocks(p, r)
+	importRule(p, r, "O11.7", "C15", "O15.6", "a load returns what the file holds now, not what an earlier load of that path returned")
 	r.Floor("file loader decode sites", 1)
 	// reader: section objects constructed for BN254
 	for _, rd := range append(append([]flow.FuncUnit{}, readers...), readerParts...) {
